@@ -424,4 +424,130 @@ theorem ef_scanStep_esc (isPrint : Nat → Bool)
   simp [bind, M.bind, pure, M.pure] at e6 ⊢
   simp [e6, setUnit, modify, e7]
 
+
+/-! ## the spelling of a literal tree -/
+
+/-- the runes a literal leaf denotes: a One, a Multi, or an Empty node (no set, no children) -/
+def leafRunes : RNode → Option (List Nat)
+  | .mk .one _ ch _ none _ _ [] => some [ch]
+  | .mk .multi _ _ str none _ _ [] => some str
+  | .mk .empty _ _ _ none _ _ [] => some []
+  | _ => none
+
+/-- the runes a list of literal leaves denotes, left to right -/
+def kidsRunes : List RNode → Option (List Nat)
+  | [] => some []
+  | k :: ks =>
+    match leafRunes k, kidsRunes ks with
+    | some a, some b => some (a ++ b)
+    | _, _ => none
+
+theorem kidsRunes_append (a b : List RNode) (x y : List Nat) (ha : kidsRunes a = some x) (hb : kidsRunes b = some y) :
+    kidsRunes (a ++ b) = some (x ++ y) := by
+  induction a generalizing x with
+  | nil => simp [kidsRunes] at ha; subst ha; simpa using hb
+  | cons k ks ih =>
+    simp only [kidsRunes, List.cons_append] at ha ⊢
+    cases h1 : leafRunes k with
+    | none => simp [h1] at ha
+    | some u =>
+      cases h2 : kidsRunes ks with
+      | none => simp [h1, h2] at ha
+      | some v =>
+        simp [h1, h2] at ha
+        subst ha
+        simp [ih v h2, List.append_assoc]
+
+/-- the children a run contributes -/
+def runKids (o : Opts) (p : List Nat) : List RNode := if p = [] then [] else [runNode o p]
+
+theorem kidsRunes_runKids (o : Opts) (p : List Nat) : kidsRunes (runKids o p) = some p := by
+  unfold runKids
+  cases p with
+  | nil => simp [kidsRunes]
+  | cons c p =>
+    cases p with
+    | nil => simp [kidsRunes, runNode, leafRunes]
+    | cons d p => simp [kidsRunes, runNode, leafRunes]
+
+def addKids (c : RNode) (ks : List RNode) : RNode := ks.foldl RNode.addChild c
+
+theorem addKids_mk (t : NT) (o : Opts) (ch : Nat) (str : List Nat) (set : Option Class.Class) (m n : Int)
+    (kids ks : List RNode) : addKids (.mk t o ch str set m n kids) ks = .mk t o ch str set m n (kids ++ ks) := by
+  induction ks generalizing kids with
+  | nil => simp [addKids]
+  | cons k ks ih =>
+    have := ih (kids ++ [k])
+    simp only [addKids, List.foldl_cons, RNode.addChild] at this ⊢
+    rw [this]; simp
+
+theorem addRun_eq (c : RNode) (o : Opts) (p : List Nat) : addRun c o p = addKids c (runKids o p) := by
+  unfold addRun runKids addKids
+  split <;> simp
+
+theorem addKids_append (c : RNode) (a b : List RNode) : addKids c (a ++ b) = addKids (addKids c a) b := by
+  simp [addKids, List.foldl_append]
+
+/-! ## the shape of `Escape`'s output -/
+
+theorem ef_raw_ord (isPrint : Nat → Bool) (hP : ∀ c, 9 ≤ c → c ≤ 13 → isPrint c = false) (c : Nat)
+    (h : isRaw isPrint c = true) : isStopperXCh c = false := by
+  have hs : Lemmas.EscapeParse.stoppers.contains c = false ∧ ¬ (9 ≤ c ∧ c ≤ 13) := by
+    unfold isRaw at h
+    cases hp : isPrint c <;> simp [hp] at h
+    · refine ⟨?_, by omega⟩
+      simp [Lemmas.EscapeParse.stoppers]; omega
+    · refine ⟨Lemmas.EscapeParse.not_meta_not_stopper c (by simpa using h), ?_⟩
+      intro ⟨h1, h2⟩
+      rw [hP c h1 h2] at hp; cases hp
+  obtain ⟨h1, h2⟩ := hs
+  simp [Lemmas.EscapeParse.stoppers] at h1
+  simp [isStopperXCh, isSpaceCh, isSpecialCh]
+  omega
+
+theorem ef_chunk (isPrint : Nat → Bool) (w : List Nat) :
+    ∃ p t, w = p ++ t ∧ (∀ c ∈ p, isRaw isPrint c = true) ∧
+      (t = [] ∨ ∃ r t', t = r :: t' ∧ isRaw isPrint r = false) := by
+  induction w with
+  | nil => exact ⟨[], [], rfl, by simp, Or.inl rfl⟩
+  | cons c w ih =>
+    by_cases hc : isRaw isPrint c = true
+    · obtain ⟨p, t, h1, h2, h3⟩ := ih
+      refine ⟨c :: p, t, by simp [h1], ?_, h3⟩
+      intro c' hc'
+      simp at hc'
+      rcases hc' with rfl | hc'
+      · exact hc
+      · exact h2 c' hc'
+    · exact ⟨[], c :: w, rfl, by simp, Or.inr ⟨c, w, rfl, by simpa using hc⟩⟩
+
+theorem ef_escape_raw (isPrint : Nat → Bool) (p : List Nat) (h : ∀ c ∈ p, isRaw isPrint c = true) :
+    escape isPrint p = p := by
+  induction p with
+  | nil => rfl
+  | cons c p ih =>
+    have e : escape isPrint (c :: p) = escapeRune isPrint c ++ escape isPrint p := by simp [escape]
+    rw [e, ef_escapeRune_raw isPrint c (h c (by simp)), ih (fun c' hc' => h c' (by simp [hc']))]
+    rfl
+
+theorem ef_escape_append (isPrint : Nat → Bool) (a b : List Nat) :
+    escape isPrint (a ++ b) = escape isPrint a ++ escape isPrint b := by
+  simp [escape]
+
+theorem ef_escape_cons (isPrint : Nat → Bool) (r : Nat) (w : List Nat) :
+    escape isPrint (r :: w) = escapeRune isPrint r ++ escape isPrint w := by
+  simp [escape]
+
+theorem ef_plainHead_escape (isPrint : Nat → Bool) (hP : ∀ c, 9 ≤ c → c ≤ 13 → isPrint c = false) (w : List Nat) :
+    PlainHead (escape isPrint w) := by
+  cases w with
+  | nil => exact plainHead_nil
+  | cons r w =>
+    rw [ef_escape_cons]
+    by_cases hr : isRaw isPrint r = true
+    · rw [ef_escapeRune_raw isPrint r hr]
+      exact plainHead_ord r _ (ef_raw_ord isPrint hP r hr)
+    · obtain ⟨body, hb⟩ := ef_escapeRune_esc isPrint r (by simpa using hr)
+      rw [hb]; exact plainHead_bslash _
+
 end RegexVerif.Parser
